@@ -33,7 +33,7 @@ def named_fn(arg, f, hook=None, tag=None):
 
 
 GRAPHS = ["lin_s", "lin_d_s", "gmrf_d_s", "lmrf_d", "two_lik", "nonlin", "xz_s", "laplace_b", "mean_m", "cmrf_d",
-          "lognormal", "lognormal_cov_s", "lin_sqrtprecF", "reg_d", "lin_geom", "sigdep_x", "direct_param", "cov_sd", "selfnamed", "cov_sdt", "lin_step", "kl_nonlin", "gamma_mv"]   # ("reg_s" is buildable but RegularizedGaussian has no log-density: not a C01/C11 graph)
+          "lognormal", "lognormal_cov_s", "lin_sqrtprecF", "reg_d", "lin_geom", "sigdep_x", "direct_param", "cov_sd", "selfnamed", "cov_sdt", "lin_step", "kl_nonlin", "gamma_mv", "heat_pde", "userdef_x"]   # ("reg_s" is buildable but RegularizedGaussian has no log-density: not a C01/C11 graph)
 
 
 def _lg(r, cov):
@@ -212,6 +212,33 @@ def build(rec, hook=None):
         h = Gamma(shape=lambda m, v: m ** 2 / v, rate=lambda m, v: m / v, geometry=1, name="h")
         dens = [h, mm, vv]
         vals = {"h": pos(), "m": pos() + 0.5, "v": pos()}
+    elif g == "heat_pde":
+        # forward model behind the time-dependent PDE interface (shipped heat-equation test problem, small grid): the model
+        # object owns a solver; prior and model share the domain geometry object, as in the library's examples
+        import cuqi
+        TP = cuqi.testproblem.Heat1D(dim=n + 4, max_time=0.01)
+        M = TP.model
+        N_ = M.domain_dim
+        s = Gamma(1.0, 0.1, name="s")
+        x = Gaussian(np.zeros(N_), 0.8, geometry=M.domain_geometry, name="x")
+        y = Gaussian(M(x), cov=inv("s", "y.cov"), name="y")
+        dens = [y, x, s]
+        vals = {"y": rs.randn(M.range_dim), "x": rs.randn(N_) * 0.7, "s": pos()}
+        out["models"]["A"] = M
+    elif g == "userdef_x":
+        # a user-defined prior whose callables hand out PERSISTENT arrays (a pre-computed constant gradient, one stored
+        # draw): legal, and nothing the library does with them may write into them
+        from cuqi.distribution import UserDefinedDistribution
+        gconst = -2.0 * np.ones(n)
+        pool = np.linspace(0.2, 1.0, n)
+        s = Gamma(1.0, 0.1, name="s")
+        x = UserDefinedDistribution(dim=n, logpdf_func=lambda v: float(gconst @ np.asarray(v, float).reshape(-1)),
+                                    gradient_func=lambda v: gconst, sample_func=lambda: pool, name="x")
+        M = LinearModel(A)
+        y = Gaussian(M(x), cov=inv("s", "y.cov"), name="y")
+        dens = [y, x, s]
+        vals = {"y": ydata, "x": xval, "s": pos()}
+        out["models"]["A"] = M
     elif g == "cov_sd":
         # one callable with TWO hyper-parameter arguments, which may be fixed in separate steps (functools.partial path)
         s = Gamma(1.0, 0.1, name="s")
@@ -282,7 +309,9 @@ def build(rec, hook=None):
         raise ValueError(g)
     # closed forms written out by the harness for the all-Gaussian/Gamma graphs: the reference for the complete assignment
     # that does not pass through any library conditioning code
-    if g == "gamma_mv":
+    if g == "userdef_x":
+        out["closed_form"] = lambda v: (_lg(v["y"] - A @ v["x"], 1 / v["s"]) - 2.0 * float(np.sum(v["x"])) + _lgam(v["s"], 1.0, 0.1))
+    elif g == "gamma_mv":
         out["closed_form"] = lambda v: (_lgam(v["h"], v["m"] ** 2 / v["v"], v["m"] / v["v"]) + _lgam(v["m"], 3.0, 1.0)
                                         + _lgam(v["v"], 2.0, 2.0))
     elif g == "lin_step":
